@@ -89,6 +89,7 @@ package internals
 //@ ghost NP(Ptr) Int
 //@ ghost LASTDATA(Ptr) Iface
 //@ ghost LASTVAL(Ptr) Iface
+//@ ghost LASTPATH(Ptr) PathSeq
 //@ spec LC(c) = L(c.ExecCtx.Errors)
 //@ spec listrep(l, g) = ((l == nil) <==> (g == empty())) && len(l) == loglen(g) && (len(l) > 0 ==> l[len(l)-1] == last(g) && IARR(arrbase(l)))
 //@ spec zrep(s) = (istype(s, *ErrsList) ==> listrep(s.(*ErrsList).List, L(s))) && (istype(s, *ErrsMap) ==> ((s.(*ErrsMap).M == nil) <==> (L(s) == empty())))
@@ -500,6 +501,7 @@ package internals
 //@   pure
 //@   ensures[C10,C14] key_by_tag_priority: result1 == fieldkey(field, fallback, m.tag)
 //@   ensures[C14] value_under_that_key: m.M != nil && has(m.M, result1) ==> result0 == box(m.M[result1])
+//@   ensures[C04,C09,C14] missing_key_is_absent: !(m.M != nil && has(m.M, result1)) ==> result0 == nil
 //@ func (*EmptyDataProvider).GetByField(e, field, fallback)
 //@   implements iface DataProvider.GetByField
 //@   pure
